@@ -248,16 +248,16 @@ theorem c10_failing_watch_carries_error (src e : String) (o : Outcome) (_h : o.f
     so `eval_watch` collects it like any value.  Negation of "a failing expression yields an error result", on a
     witness. -/
 theorem c10_failing_watch_is_value_witness :
-    let o : Outcome := ⟨true, true, "NameError", "name 'nope' is not defined", .other⟩
+    let o : Outcome := ⟨true, true, "NameError", "name 'nope' is not defined", .other, false⟩
     (evalWatch "WATCH" "nope" o false none).hasResult = true ∧ (evalWatch "WATCH" "nope" o false none).error = none := by
   decide
 
 /-! ### non-vacuity -/
 
-private def tOut : Outcome := ⟨false, false, "bool", "True", .bool true⟩
-private def fOut : Outcome := ⟨false, false, "bool", "False", .bool false⟩
+private def tOut : Outcome := ⟨false, false, "bool", "True", .bool true, false⟩
+private def fOut : Outcome := ⟨false, false, "bool", "False", .bool false, false⟩
 /-- `cache[1]` on an empty dict: KeyError(1), whose text is the truthy word `1` -/
-private def keyErr1 : Outcome := ⟨true, true, "KeyError", "1", .other⟩
+private def keyErr1 : Outcome := ⟨true, true, "KeyError", "1", .other, false⟩
 private def cfg1 : Cfg := ⟨⟨some "1", some "1000", ⟨0, 0⟩⟩, some "cache[1]"⟩
 
 /-- a failing condition with truthy error text, a false one, then a true one: only the last fires, although
